@@ -1,13 +1,11 @@
-(* Proofs about the handler-chain model (C03, C15): for every handler stack and every handler program
-   the recorded trace is accepted by the judge of Chain.v, fuel n+2 always suffices, and with Recovery
-   installed (and the handlers before it calling Next at most once) no panic escapes. *)
+(* Proofs about the handler-chain model (C03, C14, C15): for every handler stack and every handler
+   program the recorded trace is accepted by the judge of Chain.v, fuel n+2 always suffices, and with
+   Recovery installed (and the handlers before it calling Next at most once) no panic escapes. *)
 Require Import Base Return Chain.
 From Coq Require Import Sorted.
 
 (* ---------- small facts about the state setters ---------- *)
 Lemma w_header_idx c s : idx (w_header c s) = idx s.
-Proof. unfold w_header. destruct (Z.eqb (status s) 0); reflexivity. Qed.
-Lemma w_header_trace c s : trace (w_header c s) = trace s.
 Proof. unfold w_header. destruct (Z.eqb (status s) 0); reflexivity. Qed.
 Lemma w_header_canc c s : cancelled (w_header c s) = cancelled s.
 Proof. unfold w_header. destruct (Z.eqb (status s) 0); reflexivity. Qed.
@@ -18,8 +16,6 @@ Proof. unfold w_header. intros H. destruct (Z.eqb (status s) 0) eqn:E; cbn; [exa
 
 Lemma w_body_idx h ch s : idx (w_body h ch s) = idx s.
 Proof. unfold w_body. destruct h; cbn; apply w_header_idx. Qed.
-Lemma w_body_trace h ch s : trace (w_body h ch s) = trace s.
-Proof. unfold w_body. destruct h; cbn; apply w_header_trace. Qed.
 Lemma w_body_canc h ch s : cancelled (w_body h ch s) = cancelled s.
 Proof. unfold w_body. destruct h; cbn; apply w_header_canc. Qed.
 Lemma w_body_nz h ch s : status (w_body h ch s) <> 0%Z.
@@ -27,8 +23,6 @@ Proof. unfold w_body. destruct h; cbn; apply w_header_nz; discriminate. Qed.
 
 Lemma w_ops_idx h ops : forall s, idx (w_ops h ops s) = idx s.
 Proof. unfold w_ops. induction ops as [|o ops IH]; intros s; cbn; [reflexivity|]. rewrite IH. destruct o; [apply w_header_idx | apply w_body_idx]. Qed.
-Lemma w_ops_trace h ops : forall s, trace (w_ops h ops s) = trace s.
-Proof. unfold w_ops. induction ops as [|o ops IH]; intros s; cbn; [reflexivity|]. rewrite IH. destruct o; [apply w_header_trace | apply w_body_trace]. Qed.
 Lemma w_ops_canc h ops : forall s, cancelled (w_ops h ops s) = cancelled s.
 Proof. unfold w_ops. induction ops as [|o ops IH]; intros s; cbn; [reflexivity|]. rewrite IH. destruct o; [apply w_header_canc | apply w_body_canc]. Qed.
 Lemma w_ops_written h ops : forall s, status s <> 0%Z -> status (w_ops h ops s) <> 0%Z.
@@ -48,17 +42,58 @@ Proof. unfold written. destruct (Z.eqb (status s) 0) eqn:E; cbn; split; intros H
   - apply Z.eqb_neq in E. contradiction.
 Qed.
 
+(* status codes are never 0: net/http refuses them *)
+Definition ops_nz (ops : list wop) : bool :=
+  forallb (fun o => match o with WHeader c => negb (Z.eqb c 0) | WBody _ => true end) ops.
+Definition acts_nz (l : list act) : bool :=
+  forallb (fun a => match a with AWriteHeader c => negb (Z.eqb c 0) | _ => true end) l.
+Definition ret_nz (r : list rv) : bool := match r with RInt n :: _ => negb (Z.eqb n 0) | _ => true end.
+Definition valid_handler (h : handler) : bool :=
+  match h with HNormal acts ret => acts_nz acts && ret_nz ret | _ => true end.
+Definition valid_cfg (hs : list handler) (action : option handler) : bool :=
+  forallb valid_handler hs && match action with Some h => valid_handler h | None => true end.
+
+Lemma render_val_nz v : ops_nz (render_val v) = true.
+Proof.
+  destruct v as [s|[b|]|[e|]|z|[p|]|]; cbn; try reflexivity; try (destruct s; reflexivity); try (destruct b; reflexivity).
+  destruct z; reflexivity.
+Qed.
+
+Lemma render_nz r : ret_nz r = true -> ops_nz (render r) = true.
+Proof.
+  destruct r as [|v0 [|v1 [|v2 r]]]; intros H; try reflexivity.
+  - cbn [render]. destruct v0; apply render_val_nz.
+  - cbn [render]. destruct v0 as [s|b|e|z|p|]; cbn [is_str_or_bytes];
+      try (destruct v1 as [?|?|[?|]|?|?|]; apply render_val_nz); try reflexivity.
+    cbn [ret_nz] in H. cbn [ops_nz forallb]. rewrite H. apply render_val_nz.
+  - cbn. destruct v0; reflexivity.
+Qed.
+
+Lemma custom_rh_nz k : ops_nz (custom_rh k) = true.
+Proof.
+  unfold custom_rh, ops_nz. cbn [forallb]. destruct (Z.eqb (290 + Z.of_nat k) 0) eqn:E; [apply Z.eqb_eq in E; lia | reflexivity].
+Qed.
+
 Section P.
 Variable hs : list handler.
 Variable action : option handler.
 Variable head dev : bool.
+Variable apprh : option nat.
+Hypothesis Hvalid : valid_cfg hs action = true.
 
 Notation n := (Chain.n hs).
 Notation scr := (scripted hs action).
 Notation hat := (handler_at hs action).
 Notation J := (jrun hs action j0).
 Notation jst1 := (jstep hs action).
-Notation runm := (Chain.run hs action head dev).
+Notation runm := (Chain.run hs action head dev apprh).
+
+Lemma hat_valid i h : hat i = Some h -> valid_handler h = true.
+Proof.
+  unfold valid_cfg in Hvalid. apply andb_prop in Hvalid as [V1 V2]. unfold handler_at.
+  destruct (Nat.ltb i n); [intros H; apply nth_error_In in H; rewrite forallb_forall in V1; apply V1; exact H|].
+  destruct (Nat.eqb i n); [intros ->; exact V2 | discriminate].
+Qed.
 
 (* ---------- the judge, one event at a time ---------- *)
 Lemma jrun_app j a b :
@@ -68,14 +103,17 @@ Proof.
   destruct (jst1 j e); [apply IH | reflexivity].
 Qed.
 
+Lemma J_snoc tr e : J (tr ++ [e]) = match J tr with Some j => jst1 j e | None => None end.
+Proof. rewrite jrun_app. destruct (J tr) as [j|]; [|reflexivity]. cbn. destruct (jst1 j e); reflexivity. Qed.
+
 Lemma J_log s e : J (trace (log s e)) = match J (trace s) with Some j => jst1 j e | None => None end.
-Proof. cbn [log trace]. rewrite jrun_app. destruct (J (trace s)) as [j|]; [|reflexivity]. cbn. destruct (jst1 j e); reflexivity. Qed.
+Proof. apply J_snoc. Qed.
 
 Definition stk_lt (j : jst) : Prop := Forall (fun x => x < jnext j) (jstk j).
 
 Lemma jstep_stk_lt j e j' : stk_lt j -> jst1 j e = Some j' -> stk_lt j'.
 Proof.
-  unfold stk_lt. intros H E. destruct e as [i st c|i|i|i|i]; cbn [jstep] in E.
+  unfold stk_lt. intros H E. destruct e as [i st c|i|i|i|i|]; cbn [jstep] in E.
   - destruct (_ && _) eqn:C; [|discriminate]. inversion E; subst; clear E. cbn.
     repeat (apply andb_prop in C as [C ?]). apply Nat.leb_le in C.
     constructor; [lia|]. eapply Forall_impl; [|exact H]. cbn. intros; lia.
@@ -83,6 +121,7 @@ Proof.
   - destruct (top_is _ _); [|discriminate]. inversion E; subst; cbn. destruct (jstk j); cbn; [constructor | inversion H; assumption].
   - destruct (top_is _ _); [|discriminate]. inversion E; subst; cbn. exact H.
   - destruct (top_is _ _); [|discriminate]. inversion E; subst; cbn. exact H.
+  - destruct (jw j); [discriminate|]. inversion E; subst; cbn. exact H.
 Qed.
 
 Lemma jrun_stk_lt tr : forall j j', stk_lt j -> jrun hs action j tr = Some j' -> stk_lt j'.
@@ -100,18 +139,26 @@ Proof.
 Qed.
 
 (* ---------- invariants ---------- *)
-(* the trace so far is accepted, the running handlers are [sigma], and every scripted handler below
-   the frontier [f] has been started *)
+(* the trace so far is accepted, the running handlers are [sigma], every scripted handler below the
+   frontier [f] has been started, and the judge's "written" flag is the truth *)
 Definition cov (sigma : list nat) (f : nat) (s : st) (j : jst) : Prop :=
-  J (trace s) = Some j /\ jstk j = sigma /\ jnext j <= f /\ (forall k, jnext j <= k -> k < f -> scr k = false).
+  J (trace s) = Some j /\ jstk j = sigma /\ jnext j <= f /\ (forall k, jnext j <= k -> k < f -> scr k = false) /\
+  jw j = written s.
+
+(* same control state, possibly a different "written" flag *)
+Definition same_ctl (j j' : jst) : Prop :=
+  jnext j' = jnext j /\ jstk j' = jstk j /\ jprev j' = jprev j /\ jret j' = jret j.
+
+Lemma same_ctl_refl j : same_ctl j j.
+Proof. repeat split. Qed.
 
 Definition pv_ok (j : jst) : Prop :=
-  match jprev j with Some (Enter _ _ _) | Some (NextRet _) => False | _ => True end.
+  match jprev j with Some (Enter _ _ _) | Some (NextRet _) | Some Sent => False | _ => True end.
 
 Definition auto_pre (j : jst) (s : st) : Prop :=
   match jprev j with
   | Some (Exit _) | Some (Unwind _) => status s = 0%Z
-  | Some (Enter _ _ _) | Some (NextRet _) => False
+  | Some (Enter _ _ _) | Some (NextRet _) | Some Sent => False
   | _ => True
   end.
 
@@ -140,14 +187,12 @@ Definition post_top (sigma : list nat) (s0 : st) (o : outcome) : Prop :=
 
 Definition post_body (i : nat) (sigma : list nat) (s0 : st) (o : outcome) : Prop :=
   match o with
-  | Done s' => exists j, cov (i :: sigma) (S (idx s')) s' j /\ i <= idx s' /\ idx s' <= n /\ idx s0 <= idx s' /\
+  | Done s' => exists j, cov (i :: sigma) (S (idx s')) s' j /\ (jret j = true -> stopb s') /\
+                         i <= idx s' /\ idx s' <= n /\ idx s0 <= idx s' /\
                          (stopb s0 -> stopb s') /\ (stopb s' \/ idx s' = idx s0)
   | Panicked _ s' => exists j, cov (i :: sigma) (S (idx s')) s' j /\ idx s' <= n /\ idx s0 <= idx s'
   | OutOfFuel => False
   end.
-
-Lemma hat_lt i : i < n -> hat i = nth_error hs i.
-Proof. intros H. unfold handler_at. apply Nat.ltb_lt in H. rewrite H. reflexivity. Qed.
 
 Lemma hat_none i : hat i = None -> n <= i.
 Proof.
@@ -158,22 +203,68 @@ Qed.
 Lemma scr_none i : hat i = None -> scr i = false.
 Proof. unfold scripted. intros ->. reflexivity. Qed.
 
-Lemma cov_frame sigma f s s' j : trace s' = trace s -> cov sigma f s j -> cov sigma f s' j.
-Proof. unfold cov. intros ->. auto. Qed.
+Lemma cov_frame sigma f s s' j : trace s' = trace s -> status s' = status s -> cov sigma f s j -> cov sigma f s' j.
+Proof. unfold cov, written. intros -> ->. auto. Qed.
 
-Lemma cov_weaken sigma f f' s j : cov sigma f s j -> f' <= f -> jnext j <= f' -> cov sigma f' s j.
-Proof. unfold cov. intros (A & B & C & D) H1 H2. repeat split; auto. intros k K1 K2. apply D; lia. Qed.
+Lemma cov_same_ctl_pv j j' : same_ctl j j' -> pv_ok j -> pv_ok j'.
+Proof. intros (_ & _ & E & _). unfold pv_ok. rewrite E. auto. Qed.
+
+(* a write: the trace may gain a Sent event, the control state of the judge does not move *)
+Lemma cov_w_header sigma f s j c : c <> 0%Z -> cov sigma f s j ->
+  exists j', cov sigma f (w_header c s) j' /\ same_ctl j j'.
+Proof.
+  intros Hc (E & K & N & U & W). unfold w_header. destruct (Z.eqb (status s) 0) eqn:Z0.
+  - assert (Wf : jw j = false) by (rewrite W; unfold written; rewrite Z0; reflexivity).
+    exists (mkj (jnext j) (jstk j) (jprev j) true (jret j)). split; [|repeat split].
+    unfold cov. cbn [trace status]. rewrite J_snoc, E. cbn [jstep]. rewrite Wf. cbn [jstk jnext jw].
+    repeat split; auto. unfold written. cbn [status].
+    destruct (Z.eqb c 0) eqn:Ec; [apply Z.eqb_eq in Ec; contradiction | reflexivity].
+  - exists j. split; [repeat split; auto | apply same_ctl_refl].
+Qed.
+
+Lemma cov_w_body sigma f s j ch : cov sigma f s j ->
+  exists j', cov sigma f (w_body head ch s) j' /\ same_ctl j j'.
+Proof.
+  intros C. destruct (cov_w_header sigma f s j 200 ltac:(discriminate) C) as (j' & C' & S).
+  exists j'. split; [|exact S]. unfold w_body. destruct head; [exact C'|].
+  eapply cov_frame; [| |exact C']; reflexivity.
+Qed.
+
+Lemma same_ctl_trans a b c : same_ctl a b -> same_ctl b c -> same_ctl a c.
+Proof. intros (A1 & A2 & A3 & A4) (B1 & B2 & B3 & B4). repeat split; congruence. Qed.
+
+Lemma cov_w_ops sigma f ops : forall s j, ops_nz ops = true -> cov sigma f s j ->
+  exists j', cov sigma f (w_ops head ops s) j' /\ same_ctl j j'.
+Proof.
+  unfold w_ops. induction ops as [|o ops IH]; intros s j V C; cbn [fold_left].
+  - exists j. split; [exact C | apply same_ctl_refl].
+  - cbn [ops_nz forallb] in V. apply andb_prop in V as [Vo V].
+    destruct o as [c|b].
+    + assert (Hc : c <> 0%Z) by (intros ->; discriminate).
+      destruct (cov_w_header sigma f s j c Hc C) as (j1 & C1 & S1).
+      destruct (IH _ j1 V C1) as (j2 & C2 & S2). exists j2. split; [exact C2 | eapply same_ctl_trans; eauto].
+    + destruct (cov_w_body sigma f s j (CBytes b) C) as (j1 & C1 & S1).
+      destruct (IH _ j1 V C1) as (j2 & C2 & S2). exists j2. split; [exact C2 | eapply same_ctl_trans; eauto].
+Qed.
 
 Lemma stopb_frame s s' : idx s' = idx s -> (cancelled s = true -> cancelled s' = true) ->
   (status s <> 0%Z -> status s' <> 0%Z) -> stopb s -> stopb s'.
 Proof. unfold stopb. intros -> Hc Hs [H|[H|H]]; auto. Qed.
 
+Lemma rendering_nz s h : valid_handler h = true -> ops_nz (rendering apprh s h) = true.
+Proof.
+  intros V. unfold rendering. destruct h as [acts ret| |]; cbn [ret_of]; try reflexivity.
+  destruct ret as [|v r]; [reflexivity|].
+  destruct (rh s) as [k|]; [apply custom_rh_nz|]. destruct apprh as [k|]; [apply custom_rh_nz|].
+  apply render_nz. cbn [valid_handler] in V. apply andb_prop in V as [_ V]. exact V.
+Qed.
+
 (* ---------- the body of a scripted handler ---------- *)
 Section Body.
 Variable f i : nat.
 Variable sigma : list nat.
-Hypothesis IH : forall sg s j, cov sg (idx s) s j -> idx s <= S n -> auto_pre j s -> S (S n) - idx s <= f ->
-                       post_top sg s (runm f s).
+Hypothesis IH : forall sg s j, cov sg (idx s) s j -> idx s <= S n -> auto_pre j s -> (jret j = true -> stop s) ->
+                       S (S n) - idx s <= f -> post_top sg s (runm f s).
 
 Notation execm := (exec head (runm f) i).
 
@@ -184,11 +275,13 @@ Definition body_goal (l : list act) (s1 : st) : Prop :=
        not_panicked (execm l s1)).
 
 Definition body_pre (s1 : st) : Prop :=
-  (exists j1, cov (i :: sigma) (S (idx s1)) s1 j1) /\ i <= idx s1 /\ idx s1 <= n /\ S n - idx s1 <= f.
+  (exists j1, cov (i :: sigma) (S (idx s1)) s1 j1 /\ (jret j1 = true -> stopb s1)) /\
+  i <= idx s1 /\ idx s1 <= n /\ S n - idx s1 <= f.
 
-(* an action that touches neither the index nor the trace *)
+(* an action that does not touch the index and leaves the judge's control state alone *)
 Lemma simple_step (t : st -> st) l s1 :
-  idx (t s1) = idx s1 -> trace (t s1) = trace s1 -> (stopb s1 -> stopb (t s1)) ->
+  idx (t s1) = idx s1 -> (stopb s1 -> stopb (t s1)) ->
+  (forall sg fr j, cov sg fr s1 j -> exists j', cov sg fr (t s1) j' /\ same_ctl j j') ->
   body_pre s1 ->
   (body_pre (t s1) -> body_goal l (t s1)) ->
   post_body i sigma s1 (execm l (t s1)) /\
@@ -196,68 +289,74 @@ Lemma simple_step (t : st -> st) l s1 :
        (count_next l = 0 \/ (count_next l <= 1 /\ idx s1 = i)) ->
        not_panicked (execm l (t s1))).
 Proof.
-  intros Ei Et Es ((j1 & C1) & Hi & Hn & Fu) G.
+  intros Ei Es Ec ((j1 & C1 & R1) & Hi & Hn & Fu) G.
   assert (Pre : body_pre (t s1)).
-  { unfold body_pre. rewrite Ei. repeat split; auto. exists j1. eapply cov_frame; eauto. }
+  { unfold body_pre. rewrite Ei. repeat split; auto.
+    destruct (Ec _ _ _ C1) as (j' & C' & (_ & _ & _ & Er)). exists j'. split; [exact C'|].
+    rewrite Er. intros X. apply Es. apply R1. exact X. }
   destruct (G Pre) as [P Q]. split.
   - destruct (execm l (t s1)) as [s'|v s'|]; cbn [post_body] in *; auto.
-    + destruct P as (j & Cj & ? & ? & ? & Hm & Hd). rewrite Ei in *. exists j. split; [assumption|]. repeat split; auto.
+    + destruct P as (j & Cj & ? & ? & ? & ? & Hm & Hd). rewrite Ei in *. exists j. split; [assumption|]. repeat split; auto.
     + destruct P as (j & Cj & ? & ?). rewrite Ei in *. exists j. split; [assumption|]. repeat split; auto.
   - intros r R Hr Np Cn. apply (Q r R Hr Np). rewrite Ei. exact Cn.
 Qed.
 
-Lemma exec_ok : forall l s1, body_pre s1 -> body_goal l s1.
+Lemma exec_ok : forall l s1, acts_nz l = true -> body_pre s1 -> body_goal l s1.
 Proof.
-  induction l as [|a l IHl]; intros s1 Pre.
-  - destruct Pre as ((j1 & C1) & Hi & Hn & Fu). split; [|intros; exact I].
+  induction l as [|a l IHl]; intros s1 V Pre.
+  - destruct Pre as ((j1 & C1 & R1) & Hi & Hn & Fu). split; [|intros; exact I].
     cbn [exec post_body]. exists j1. split; [assumption|]. repeat split; auto.
-  - destruct a as [c|bs| | |v]; unfold body_goal; cbn [exec nopanic count_next].
+  - cbn [acts_nz forallb] in V. apply andb_prop in V as [Va V].
+    destruct a as [c|bs| | |v|k|]; unfold body_goal; cbn [exec nopanic count_next].
     + (* WriteHeader *)
+      assert (Hc : c <> 0%Z) by (intros ->; discriminate).
       apply (simple_step (w_header c)); auto.
       * apply w_header_idx.
-      * apply w_header_trace.
       * apply stopb_frame; [apply w_header_idx | rewrite w_header_canc; auto | apply w_header_written].
+      * intros sg fr j Cj. apply cov_w_header; assumption.
     + (* Write *)
       apply (simple_step (w_body head (CBytes bs))); auto.
       * apply w_body_idx.
-      * apply w_body_trace.
       * intros _. unfold stopb. right; right. apply w_body_nz.
+      * intros sg fr j Cj. apply cov_w_body; assumption.
     + (* Next *)
-      destruct Pre as ((j1 & C1) & Hi & Hn & Fu).
+      destruct Pre as ((j1 & C1 & R1) & Hi & Hn & Fu).
       set (sc := log s1 (NextCall i)).
-      destruct C1 as (E1 & K1 & N1 & U1).
-      set (jc := mkj (jnext j1) (jstk j1) (Some (NextCall i))).
+      destruct C1 as (E1 & K1 & N1 & U1 & W1).
+      set (jc := mkj (jnext j1) (jstk j1) (Some (NextCall i)) (jw j1) (jret j1)).
       assert (Jc : J (trace sc) = Some jc).
       { subst sc jc. rewrite J_log, E1. cbn [jstep]. rewrite K1. cbn [top_is]. rewrite Nat.eqb_refl. reflexivity. }
       set (s1' := set_idx sc (S (idx sc))).
       assert (I1 : idx s1' = S (idx s1)) by reflexivity.
       assert (T1 : cov (i :: sigma) (idx s1') s1' jc).
-      { rewrite I1. unfold cov. subst jc. cbn [jstk jnext]. repeat split; auto. }
+      { rewrite I1. unfold cov. subst jc. cbn [jstk jnext jw]. repeat split; auto. }
       assert (A1 : auto_pre jc s1') by exact I.
+      assert (RT : jret jc = true -> stop s1').
+      { subst jc. cbn [jret]. intros X. specialize (R1 X). unfold stop, stopb in *. rewrite I1. exact R1. }
       assert (F1 : S (S n) - idx s1' <= f) by (rewrite I1; lia).
       assert (B1 : idx s1' <= S n) by (rewrite I1; lia).
-      pose proof (IH (i :: sigma) s1' jc T1 B1 A1 F1) as [P PC].
+      pose proof (IH (i :: sigma) s1' jc T1 B1 A1 RT F1) as [P PC].
       unfold next. fold sc. fold s1'.
       destruct (runm f s1') as [s2|v s2|] eqn:R; cbn [post_top] in P.
       * (* the remainder of the chain finished inside the call *)
-        destruct P as (j2 & (E2 & K2 & N2 & U2) & B2 & M2 & PV2 & ST2).
+        destruct P as (j2 & (E2 & K2 & N2 & U2 & W2) & B2 & M2 & PV2 & ST2).
         rewrite I1 in M2.
         set (s3 := log (set_idx s2 (pred (idx s2))) (NextRet i)).
-        set (j3 := mkj (jnext j2) (jstk j2) (Some (NextRet i))).
+        set (j3 := mkj (jnext j2) (jstk j2) (Some (NextRet i)) (jw j2) true).
         assert (I3 : idx s3 = pred (idx s2)) by reflexivity.
         assert (C3 : cov (i :: sigma) (S (idx s3)) s3 j3).
-        { rewrite I3. unfold cov. subst j3. cbn [jstk jnext]. repeat split; auto; try lia.
+        { rewrite I3. unfold cov. subst j3. cbn [jstk jnext jw]. repeat split; auto; try lia.
           - subst s3. rewrite J_log. cbn [trace set_idx]. rewrite E2. cbn [jstep]. rewrite K2. cbn [top_is]. rewrite Nat.eqb_refl. reflexivity.
           - intros k H1 H2. apply U2; lia. }
-        assert (Pre3 : body_pre s3).
-        { unfold body_pre. rewrite I3. repeat split; try lia. exists j3. rewrite <- I3. exact C3. }
-        destruct (IHl s3 Pre3) as [P3 Q3].
         assert (SB3 : stopb s3).
         { unfold stopb, stop in *. rewrite I3. subst s3. cbn [log set_idx cancelled status].
           destruct ST2 as [?|[?|?]]; auto. left. lia. }
+        assert (Pre3 : body_pre s3).
+        { unfold body_pre. rewrite I3. repeat split; try lia. exists j3. rewrite <- I3. split; [exact C3 | intros _; exact SB3]. }
+        destruct (IHl s3 V Pre3) as [P3 Q3].
         split.
         -- destruct (execm l s3) as [s'|v s'|]; cbn [post_body] in *; auto.
-           ++ destruct P3 as (j & ? & ? & ? & ? & Hm & Hd). exists j. rewrite I3 in *. split; [assumption|]. repeat split; auto; try lia.
+           ++ destruct P3 as (j & ? & ? & ? & ? & ? & Hm & Hd). exists j. rewrite I3 in *. split; [assumption|]. repeat split; auto; try lia.
            ++ destruct P3 as (j & ? & ? & ?). exists j. rewrite I3 in *. split; [assumption|]. repeat split; auto; try lia.
         -- intros r Rc Hr Np Cn. apply (Q3 r Rc Hr Np). left. lia.
       * (* a panic travels through this handler *)
@@ -269,26 +368,33 @@ Proof.
       * contradiction.
     + (* Cancel *)
       apply (simple_step set_cancelled); auto.
-      intros _. unfold stopb. right; left. reflexivity.
+      * intros _. unfold stopb. right; left. reflexivity.
+      * intros sg fr j Cj. exists j. split; [exact Cj | apply same_ctl_refl].
     + (* Panic *)
-      destruct Pre as ((j1 & C1) & Hi & Hn & Fu). split.
+      destruct Pre as ((j1 & C1 & R1) & Hi & Hn & Fu). split.
       * cbn [post_body]. exists j1. split; [assumption|]. repeat split; auto.
       * intros r R Hr Np. discriminate.
+    + (* Map a ReturnHandler *)
+      apply (simple_step (fun s => set_rh s k)); auto.
+      intros sg fr j Cj. exists j. split; [exact Cj | apply same_ctl_refl].
+    + (* a sub-request: another request altogether *)
+      apply (simple_step (fun s => s)); auto.
+      intros sg fr j Cj. exists j. split; [exact Cj | apply same_ctl_refl].
 Qed.
 End Body.
 
 Lemma auto_pre_pv j s : auto_pre j s -> pv_ok j.
-Proof. unfold auto_pre, pv_ok. destruct (jprev j) as [[ | | | | ]|]; auto. Qed.
+Proof. unfold auto_pre, pv_ok. destruct (jprev j) as [[ | | | | | ]|]; auto. Qed.
 
 Lemma pv_auto j s : pv_ok j -> status s = 0%Z -> auto_pre j s.
-Proof. unfold auto_pre, pv_ok. destruct (jprev j) as [[ | | | | ]|]; auto. Qed.
+Proof. unfold auto_pre, pv_ok. destruct (jprev j) as [[ | | | | | ]|]; auto. Qed.
 
 Lemma auto_pre_frame j s s' : status s' = status s -> auto_pre j s -> auto_pre j s'.
 Proof. unfold auto_pre. intros ->. auto. Qed.
 
 Lemma may_start_ok j s : auto_pre j s -> cancelled s = false -> may_start (jprev j) (status s) (cancelled s) = true.
 Proof.
-  unfold auto_pre, may_start. intros A ->. destruct (jprev j) as [[ | | | | ]|]; try contradiction; cbn; auto.
+  unfold auto_pre, may_start. intros A ->. destruct (jprev j) as [[ | | | | | ]|]; try contradiction; cbn; auto.
   - rewrite A. reflexivity.
   - rewrite A. reflexivity.
 Qed.
@@ -308,7 +414,7 @@ Proof. unfold scripted. intros ->. reflexivity. Qed.
 
 Lemma cov_extend sigma f s j : cov sigma f s j -> scr f = false -> cov sigma (S f) s j.
 Proof.
-  unfold cov. intros (A & B & C & D) U. repeat split; auto.
+  unfold cov. intros (A & B & C & D & W) U. repeat split; auto.
   intros k K1 K2. destruct (Nat.eq_dec k f) as [->|]; [exact U | apply D; lia].
 Qed.
 
@@ -316,47 +422,56 @@ Qed.
 Definition post_inv (h : handler) (sigma : list nat) (s0 : st) (o : outcome) : Prop :=
   match o with
   | Done s' => exists j, cov sigma (S (idx s')) s' j /\ idx s' <= n /\ idx s0 <= idx s' /\ pv_ok j /\
+                         (jret j = true -> stopb s') /\
                          (stopb s' \/ idx s' = idx s0) /\ (h = HRecovery -> stopb s')
   | Panicked _ s' => exists j, cov sigma (S (idx s')) s' j /\ idx s' <= n /\ idx s0 <= idx s' /\ pv_ok j
   | OutOfFuel => False
   end /\ (forall r, recov_cfg r -> idx s0 <= r -> not_panicked o).
 
 Lemma invoke_ok f
-  (IH : forall sg s j, cov sg (idx s) s j -> idx s <= S n -> auto_pre j s -> S (S n) - idx s <= f ->
-                       post_top sg s (runm f s)) :
-  forall sigma s j h, cov sigma (idx s) s j -> idx s <= n -> auto_pre j s -> cancelled s = false ->
-    hat (idx s) = Some h -> S (S n) - idx s <= S f ->
+  (IH : forall sg s j, cov sg (idx s) s j -> idx s <= S n -> auto_pre j s -> (jret j = true -> stop s) ->
+                       S (S n) - idx s <= f -> post_top sg s (runm f s)) :
+  forall sigma s j h, cov sigma (idx s) s j -> idx s <= n -> auto_pre j s -> (jret j = true -> stop s) ->
+    cancelled s = false -> hat (idx s) = Some h -> S (S n) - idx s <= S f ->
     post_inv h sigma s (invoke head dev (runm f) (idx s) h s).
 Proof.
-  intros sigma s j h C Hn A Hc Hh Fu. set (i := idx s) in *.
+  intros sigma s j h C Hn A RT Hc Hh Fu. set (i := idx s) in *.
+  assert (WR : jret j = true -> status s <> 0%Z).
+  { intros X. destruct (RT X) as [L|[L|L]]; [fold i in L; lia | congruence | exact L]. }
   destruct h as [acts ret| |]; cbn [invoke].
   - (* a scripted handler *)
-    destruct C as (E & K & N & U).
+    pose proof (hat_valid _ _ Hh) as Vh. cbn [valid_handler] in Vh. apply andb_prop in Vh as [Va _].
+    destruct C as (E & K & N & U & W).
     set (e := Enter i (status s) (cancelled s)).
-    set (je := mkj (S i) (i :: sigma) (Some e)).
+    set (je := mkj (S i) (i :: sigma) (Some e) (jw j) (jret j)).
     assert (Je : J (trace (log s e)) = Some je).
     { rewrite J_log, E. subst e. cbn [jstep].
       assert (L : Nat.leb (jnext j) i = true) by (apply Nat.leb_le; exact N). rewrite L.
       rewrite none_scripted_true by (intros k K1 K2; apply U; lia).
       rewrite (scr_normal _ _ _ Hh), (top_lt_ok j i (J_stk_lt _ _ E) N), (may_start_ok j s A Hc).
-      cbn. subst je. rewrite K. reflexivity. }
+      assert (T1 : Bool.eqb (Z.eqb (status s) 0) (negb (jw j)) = true).
+      { rewrite W. unfold written. rewrite negb_involutive. apply eqb_reflx. }
+      assert (T2 : negb (jret j) || jw j = true).
+      { destruct (jret j) eqn:Rj; [|reflexivity]. cbn. rewrite W. apply written_true. apply WR. reflexivity. }
+      rewrite T1, T2. cbn. subst je. rewrite K. reflexivity. }
     assert (Pre : body_pre f i sigma (log s e)).
-    { unfold body_pre. cbn [idx log]. fold i. repeat split; try lia. exists je. unfold cov. subst je. cbn [jstk jnext].
-      repeat split; auto. intros k K1 K2. lia. }
-    destruct (exec_ok f i sigma IH acts (log s e) Pre) as [P Q].
+    { unfold body_pre. cbn [idx log]. fold i. repeat split; try lia. exists je. split.
+      - unfold cov. subst je. cbn [jstk jnext jw]. repeat split; auto. intros k K1 K2. lia.
+      - subst je. cbn [jret]. intros X. unfold stopb. cbn [status log cancelled]. right; right. apply WR. exact X. }
+    destruct (exec_ok f i sigma IH acts (log s e) Va Pre) as [P Q].
     split.
     + destruct (exec head (runm f) i acts (log s e)) as [s1|v s1|]; cbn [post_body] in P; [| |contradiction].
-      * destruct P as (j1 & (E1 & K1 & N1 & U1) & I1 & B1 & M1 & Hm & Hd). cbn [idx log] in M1, Hd.
-        exists (mkj (jnext j1) sigma (Some (Exit i))). unfold cov. cbn [jstk jnext idx log].
-        assert (JJ : J (trace (log s1 (Exit i))) = Some (mkj (jnext j1) sigma (Some (Exit i)))).
+      * destruct P as (j1 & (E1 & K1 & N1 & U1 & W1) & R1 & I1 & B1 & M1 & Hm & Hd). cbn [idx log] in M1, Hd.
+        exists (mkj (jnext j1) sigma (Some (Exit i)) (jw j1) (jret j1)). unfold cov. cbn [jstk jnext jw jret idx log].
+        assert (JJ : J (trace (log s1 (Exit i))) = Some (mkj (jnext j1) sigma (Some (Exit i)) (jw j1) (jret j1))).
         { rewrite J_log, E1. cbn [jstep]. rewrite K1. cbn [top_is tl]. rewrite Nat.eqb_refl. reflexivity. }
         split; [repeat split; auto|].
         split; [exact B1|]. split; [exact M1|]. split; [exact I|].
-        split; [|discriminate].
+        split; [exact R1|]. split; [|discriminate].
         destruct Hd as [Hd|Hd]; [left; exact Hd | right; exact Hd].
-      * destruct P as (j1 & (E1 & K1 & N1 & U1) & B1 & M1). cbn [idx log] in M1.
-        exists (mkj (jnext j1) sigma (Some (Unwind i))). unfold cov. cbn [jstk jnext idx log].
-        assert (JJ : J (trace (log s1 (Unwind i))) = Some (mkj (jnext j1) sigma (Some (Unwind i)))).
+      * destruct P as (j1 & (E1 & K1 & N1 & U1 & W1) & B1 & M1). cbn [idx log] in M1.
+        exists (mkj (jnext j1) sigma (Some (Unwind i)) (jw j1) (jret j1)). unfold cov. cbn [jstk jnext jw idx log].
+        assert (JJ : J (trace (log s1 (Unwind i))) = Some (mkj (jnext j1) sigma (Some (Unwind i)) (jw j1) (jret j1))).
         { rewrite J_log, E1. cbn [jstep]. rewrite K1. cbn [top_is tl]. rewrite Nat.eqb_refl. reflexivity. }
         split; [repeat split; auto|].
         split; [exact B1|]. split; [exact M1|]. exact I.
@@ -369,16 +484,18 @@ Proof.
   - (* Recovery *)
     unfold next. set (s1 := set_idx s (S (idx s))).
     assert (C1 : cov sigma (idx s1) s1 j).
-    { subst s1. cbn [idx set_idx]. fold i. eapply cov_frame; [|apply cov_extend; [exact C | apply scr_recovery; exact Hh]]. reflexivity. }
+    { subst s1. cbn [idx set_idx]. fold i. eapply cov_frame; [| |apply cov_extend; [exact C | apply scr_recovery; exact Hh]]; reflexivity. }
     assert (A1 : auto_pre j s1) by (eapply auto_pre_frame; [|exact A]; reflexivity).
+    assert (RT1 : jret j = true -> stop s1).
+    { intros X. unfold stop. right; right. subst s1. cbn [status set_idx]. apply WR. exact X. }
     assert (F1 : S (S n) - idx s1 <= f) by (subst s1; cbn [idx set_idx]; fold i; lia).
     assert (B1 : idx s1 <= S n) by (subst s1; cbn [idx set_idx]; fold i; lia).
-    pose proof (IH sigma s1 j C1 B1 A1 F1) as [P PC].
+    pose proof (IH sigma s1 j C1 B1 A1 RT1 F1) as [P PC].
     split; [|intros r Rc Hr; destruct (runm f s1); exact I].
     destruct (runm f s1) as [s2|v s2|]; cbn [post_top] in P; [| |contradiction].
     + destruct P as (j2 & C2 & B2 & M2 & PV2 & ST2). subst s1. cbn [idx set_idx] in M2. fold i in M2.
       exists j2. cbn [idx set_idx]. replace (S (pred (idx s2))) with (idx s2) by lia.
-      split; [eapply cov_frame; [|exact C2]; reflexivity|].
+      split; [eapply cov_frame; [| |exact C2]; reflexivity|].
       assert (SB : stopb (set_idx s2 (pred (idx s2)))).
       { unfold stopb, stop in *. cbn [idx set_idx cancelled status]. destruct ST2 as [?|[?|?]]; auto. left. lia. }
       repeat split; auto; try lia.
@@ -386,8 +503,10 @@ Proof.
       set (s3 := w_body head (CPanicPage v dev) (w_header 500 s2)).
       assert (I3 : idx s3 = idx s2) by (subst s3; rewrite w_body_idx, w_header_idx; reflexivity).
       assert (SB : stopb s3) by (unfold stopb; right; right; apply w_body_nz).
-      exists j2. rewrite I3. split.
-      { eapply cov_frame; [|exact C2]. subst s3. rewrite w_body_trace, w_header_trace. reflexivity. }
+      destruct (cov_w_header sigma (S (idx s2)) s2 j2 500 ltac:(discriminate) C2) as (j3 & C3 & S3).
+      destruct (cov_w_body sigma (S (idx s2)) _ j3 (CPanicPage v dev) C3) as (j4 & C4 & S4).
+      exists j4. rewrite I3. split; [exact C4|].
+      assert (PV4 : pv_ok j4) by (eapply cov_same_ctl_pv; [exact S4|]; eapply cov_same_ctl_pv; [exact S3 | exact PV2]).
       repeat split; auto; try lia.
   - (* a handler whose parameters cannot be resolved *)
     split.
@@ -407,9 +526,9 @@ Proof.
 Qed.
 
 Lemma run_ok : forall fuel sigma s j, cov sigma (idx s) s j -> idx s <= S n -> auto_pre j s ->
-  S (S n) - idx s <= fuel -> post_top sigma s (runm fuel s).
+  (jret j = true -> stop s) -> S (S n) - idx s <= fuel -> post_top sigma s (runm fuel s).
 Proof.
-  induction fuel as [|f IH]; intros sigma s j C B A Fu; [lia|].
+  induction fuel as [|f IH]; intros sigma s j C B A RT Fu; [lia|].
   cbn [run].
   destruct (Nat.ltb n (idx s)) eqn:L.
   { apply Nat.ltb_lt in L. split; [|intros; exact I]. cbn [post_top]. exists j. split; [exact C|].
@@ -422,38 +541,42 @@ Proof.
   2:{ (* no action *)
       pose proof (hat_none _ Hh) as Hn. assert (En : idx s = n) by lia.
       split; [|intros; exact I]. cbn [post_top idx set_idx]. exists j. split.
-      - eapply cov_frame; [|apply cov_extend; [exact C | apply scr_none; exact Hh]]. reflexivity.
+      - eapply cov_frame; [| |apply cov_extend; [exact C | apply scr_none; exact Hh]]; reflexivity.
       - split; [lia|]. split; [lia|]. split; [eapply auto_pre_pv; exact A|]. left. cbn. lia. }
-  pose proof (invoke_ok f (fun sg s0 j0 => IH sg s0 j0) sigma s j h C L A Cn Hh Fu) as [P PC].
+  pose proof (invoke_ok f (fun sg s0 j0 => IH sg s0 j0) sigma s j h C L A RT Cn Hh Fu) as [P PC].
   destruct (invoke head dev (runm f) (idx s) h s) as [s1|v s1|] eqn:Inv; cbn [post_inv] in P; [| |contradiction].
-  - destruct P as (j1 & C1 & B1 & M1 & PV1 & Hd & Hrec).
+  - destruct P as (j1 & C1 & B1 & M1 & PV1 & R1 & Hd & Hrec).
     set (s2 := set_idx s1 (S (idx s1))).
-    set (s3 := w_ops head (render (ret_of h)) s2).
+    set (s3 := w_ops head (rendering apprh s2 h) s2).
     assert (I3 : idx s3 = S (idx s1)) by (subst s3 s2; rewrite w_ops_idx; reflexivity).
-    assert (C3 : cov sigma (idx s3) s3 j1).
-    { rewrite I3. eapply cov_frame; [|exact C1]. subst s3 s2. rewrite w_ops_trace. reflexivity. }
+    assert (C2 : cov sigma (S (idx s1)) s2 j1) by (eapply cov_frame; [| |exact C1]; reflexivity).
+    destruct (cov_w_ops sigma (S (idx s1)) (rendering apprh s2 h) s2 j1 (rendering_nz s2 h (hat_valid _ _ Hh)) C2) as (j3 & C3 & S3).
+    fold s3 in C3. rewrite <- I3 in C3.
+    assert (PV3 : pv_ok j3) by (eapply cov_same_ctl_pv; eauto).
     destruct (written s3) eqn:W.
-    + apply written_true in W. split; [|intros; exact I]. cbn [post_top]. exists j1. split; [exact C3|].
-      rewrite I3. split; [lia|]. split; [lia|]. split; [exact PV1|]. right; right. exact W.
+    + apply written_true in W. split; [|intros; exact I]. cbn [post_top]. exists j3. split; [exact C3|].
+      rewrite I3. split; [lia|]. split; [lia|]. split; [exact PV3|]. right; right. exact W.
     + apply written_false in W.
-      assert (A3 : auto_pre j1 s3) by (apply pv_auto; assumption).
+      assert (A3 : auto_pre j3 s3) by (apply pv_auto; assumption).
+      assert (S1 : status s1 = 0%Z).
+      { destruct (Z.eq_dec (status s1) 0) as [Z0|Z0]; [exact Z0|]. exfalso.
+        assert (X : status s3 <> 0%Z) by (subst s3 s2; apply w_ops_written; exact Z0). contradiction. }
+      assert (SB3 : stopb s1 -> n < idx s3 \/ cancelled s3 = true).
+      { intros SB. unfold stopb in SB. rewrite I3. subst s3 s2. rewrite w_ops_canc. cbn [cancelled set_idx].
+        destruct SB as [?|[?|?]]; [left; assumption | right; assumption | contradiction]. }
+      assert (RT3 : jret j3 = true -> stop s3).
+      { destruct S3 as (_ & _ & _ & Er). rewrite Er. intros X. destruct (SB3 (R1 X)) as [Y|Y]; [left; exact Y | right; left; exact Y]. }
       assert (F3 : S (S n) - idx s3 <= f) by (rewrite I3; lia).
       assert (B3 : idx s3 <= S n) by (rewrite I3; lia).
-      pose proof (IH sigma s3 j1 C3 B3 A3 F3) as [P3 PC3].
+      pose proof (IH sigma s3 j3 C3 B3 A3 RT3 F3) as [P3 PC3].
       split.
       * destruct (runm f s3) as [s'|v s'|]; cbn [post_top] in *; auto.
         -- destruct P3 as (j' & ? & ? & ? & ? & ?). exists j'. split; [assumption|]. repeat split; auto; lia.
         -- destruct P3 as (j' & ? & ? & ? & ?). exists j'. split; [assumption|]. repeat split; auto; lia.
       * intros r Rc Hr.
-        assert (S1 : status s1 = 0%Z).
-        { destruct (Z.eq_dec (status s1) 0) as [Z0|Z0]; [exact Z0|]. exfalso.
-          assert (X : status s3 <> 0%Z) by (subst s3 s2; apply w_ops_written; exact Z0). contradiction. }
-        assert (Stop3 : stopb s1 -> not_panicked (runm f s3)).
-        { intros SB. apply run_stop. unfold stopb in SB. rewrite I3. subst s3 s2. rewrite w_ops_canc. cbn [cancelled set_idx].
-          destruct SB as [?|[?|?]]; [left; assumption | right; assumption | contradiction]. }
+        assert (Stop3 : stopb s1 -> not_panicked (runm f s3)) by (intros SB; apply run_stop; apply SB3; exact SB).
         destruct (Nat.eq_dec (idx s) r) as [Er|Ner].
-        -- (* the handler just invoked was Recovery itself *)
-           destruct Rc as (Hr1 & _). rewrite Er, Hr1 in Hh. inversion Hh; subst h. apply Stop3. apply Hrec. reflexivity.
+        -- destruct Rc as (Hr1 & _). rewrite Er, Hr1 in Hh. inversion Hh; subst h. apply Stop3. apply Hrec. reflexivity.
         -- destruct Hd as [SB|Ei]; [apply Stop3; exact SB|].
            apply (PC3 r Rc). rewrite I3, Ei. lia.
   - destruct P as (j1 & C1 & B1 & M1 & PV1). split; [|exact PC].
@@ -461,33 +584,34 @@ Proof.
 Qed.
 
 (* ---------- the whole request ---------- *)
-Theorem serve_ok : post_top [] init (serve hs action head dev).
+Theorem serve_ok : post_top [] init (serve hs action head dev apprh).
 Proof.
   unfold serve. apply (run_ok (S (S n)) [] init j0).
   - unfold cov. cbn. repeat split; auto. intros; lia.
   - cbn. lia.
   - exact I.
+  - cbn. discriminate.
   - cbn. lia.
 Qed.
 
 (* fuel n+2 is always enough, and whatever the handlers do, the recorded trace is accepted *)
 Theorem serve_accepted :
-  match serve hs action head dev with
+  match serve hs action head dev apprh with
   | Done s | Panicked _ s => chain_spec_ok hs action (trace s) = true
   | OutOfFuel => False
   end.
 Proof.
   destruct serve_ok as [P _].
-  destruct (serve hs action head dev) as [s|v s|]; cbn [post_top] in P; [| |exact P].
+  destruct (serve hs action head dev apprh) as [s|v s|]; cbn [post_top] in P; [| |exact P].
   - destruct P as (j & (E & K & _) & _). unfold chain_spec_ok. rewrite E, K. reflexivity.
   - destruct P as (j & (E & K & _) & _). unfold chain_spec_ok. rewrite E, K. reflexivity.
 Qed.
 
 (* with Recovery installed no panic escapes *)
-Theorem serve_contained r : recov_cfg r -> exists s, serve hs action head dev = Done s.
+Theorem serve_contained r : recov_cfg r -> exists s, serve hs action head dev apprh = Done s.
 Proof.
   intros Rc. destruct serve_ok as [P PC]. specialize (PC r Rc ltac:(cbn; lia)).
-  destruct (serve hs action head dev) as [s|v s|]; [exists s; reflexivity | contradiction | cbn in P; contradiction].
+  destruct (serve hs action head dev apprh) as [s|v s|]; [exists s; reflexivity | contradiction | cbn in P; contradiction].
 Qed.
 End P.
 
@@ -521,22 +645,35 @@ Proof.
   specialize (H k). rewrite in_seq in H. specialize (H (conj H1 H2)). destruct (scr k); [discriminate | reflexivity].
 Qed.
 
+(* the conditions under which the judge lets a handler start *)
+Lemma jstep_enter j i st c j' : jstep hs action j (Enter i st c) = Some j' ->
+  jnext j <= i /\ none_scripted hs action (jnext j) (i - jnext j) = true /\ scr i = true /\
+  may_start (jprev j) st c = true /\ Z.eqb st 0 = negb (jw j) /\ (jret j = true -> jw j = true) /\
+  j' = mkj (S i) (i :: jstk j) (Some (Enter i st c)) (jw j) (jret j).
+Proof.
+  cbn [jstep]. destruct (_ && _) eqn:Cd; [|discriminate]. intros E. inversion E; subst; clear E.
+  repeat (apply andb_prop in Cd as [Cd ?]). apply Nat.leb_le in Cd.
+  repeat split; auto.
+  - apply eqb_prop. assumption.
+  - intros R. rewrite R in *. cbn in *. assumption.
+Qed.
+
 Lemma jstep_order pre j e j' : order_inv pre j -> jstep hs action j e = Some j' -> order_inv (pre ++ [e]) j'.
 Proof.
   intros (A & B & C) E. unfold order_inv. rewrite enters_app.
-  destruct e as [i st c|i|i|i|i]; cbn [jstep] in E.
-  - destruct (_ && _) eqn:Cd; [|discriminate]. inversion E; subst; clear E. cbn [jnext enters].
-    repeat (apply andb_prop in Cd as [Cd ?]). apply Nat.leb_le in Cd.
+  destruct e as [i st c|i|i|i|i|].
+  - apply jstep_enter in E as (L & NS & Si & _ & _ & _ & ->). cbn [jnext enters].
     repeat split.
     + intros x Hx. apply in_app_or in Hx as [Hx|[<-|[]]]; [specialize (A x Hx); lia | lia].
-    + intros k Hk Sk. apply in_or_app. destruct (Nat.lt_ge_cases k (jnext j)) as [L|G]; [left; apply B; assumption|].
+    + intros k Hk Sk. apply in_or_app. destruct (Nat.lt_ge_cases k (jnext j)) as [Lt|G]; [left; apply B; assumption|].
       destruct (Nat.eq_dec k i) as [->|Ne]; [right; left; reflexivity|]. exfalso.
       assert (X : scr k = false) by (eapply none_scripted_false; [eassumption | lia | lia]). congruence.
     + apply sorted_snoc; [exact C|]. intros y Hy. specialize (A y Hy). lia.
-  - destruct (top_is _ _); [|discriminate]. inversion E; subst. cbn. rewrite app_nil_r. auto.
-  - destruct (top_is _ _); [|discriminate]. inversion E; subst. cbn. rewrite app_nil_r. auto.
-  - destruct (top_is _ _); [|discriminate]. inversion E; subst. cbn. rewrite app_nil_r. auto.
-  - destruct (top_is _ _); [|discriminate]. inversion E; subst. cbn. rewrite app_nil_r. auto.
+  - cbn [jstep] in E. destruct (top_is _ _); [|discriminate]. inversion E; subst. cbn. rewrite app_nil_r. auto.
+  - cbn [jstep] in E. destruct (top_is _ _); [|discriminate]. inversion E; subst. cbn. rewrite app_nil_r. auto.
+  - cbn [jstep] in E. destruct (top_is _ _); [|discriminate]. inversion E; subst. cbn. rewrite app_nil_r. auto.
+  - cbn [jstep] in E. destruct (top_is _ _); [|discriminate]. inversion E; subst. cbn. rewrite app_nil_r. auto.
+  - cbn [jstep] in E. destruct (jw j); [discriminate|]. inversion E; subst. cbn. rewrite app_nil_r. auto.
 Qed.
 
 Lemma jrun_order tr : forall pre j j', order_inv pre j -> jrun hs action j tr = Some j' -> order_inv (pre ++ tr) j'.
@@ -551,32 +688,57 @@ Qed.
 Lemma spec_ok_run tr : chain_spec_ok hs action tr = true -> exists j, jrun hs action j0 tr = Some j.
 Proof. unfold chain_spec_ok. destruct (jrun hs action j0 tr) as [j|]; [eauto | discriminate]. Qed.
 
+Lemma order_inv0 : order_inv [] j0.
+Proof. repeat split; cbn; try constructor; intros; try contradiction; lia. Qed.
+
 (* started in chain order, each at most once *)
 Theorem accepted_increasing tr : chain_spec_ok hs action tr = true -> StronglySorted lt (enters tr).
-Proof.
-  intros H. destruct (spec_ok_run tr H) as (j & E).
-  assert (I0 : order_inv [] j0) by (repeat split; cbn; try constructor; intros; try contradiction; lia).
-  apply (jrun_order tr [] j0 j I0 E).
-Qed.
+Proof. intros H. destruct (spec_ok_run tr H) as (j & E). apply (jrun_order tr [] j0 j order_inv0 E). Qed.
 
 (* never skipping a scripted handler *)
 Theorem accepted_no_skip tr i k :
   chain_spec_ok hs action tr = true -> In i (enters tr) -> k < i -> scr k = true -> In k (enters tr).
 Proof.
   intros H Hi Hk Sk. destruct (spec_ok_run tr H) as (j & E).
-  assert (I0 : order_inv [] j0) by (repeat split; cbn; try constructor; intros; try contradiction; lia).
-  destruct (jrun_order tr [] j0 j I0 E) as (A & B & _). cbn [app] in *.
+  destruct (jrun_order tr [] j0 j order_inv0 E) as (A & B & _). cbn [app] in *.
   apply B; [|exact Sk]. specialize (A i Hi). lia.
 Qed.
 
-Lemma jstep_prev j e j' : jstep hs action j e = Some j' -> jprev j' = Some e.
+(* what the judge remembers of a prefix *)
+Definition is_sent (e : event) : bool := match e with Sent => true | _ => false end.
+Definition is_nextret (e : event) : bool := match e with NextRet _ => true | _ => false end.
+Fixpoint last_ctl (tr : list event) (acc : option event) : option event :=
+  match tr with [] => acc | Sent :: t => last_ctl t acc | e :: t => last_ctl t (Some e) end.
+
+Definition mem_inv (pre : list event) (j : jst) : Prop :=
+  jw j = existsb is_sent pre /\ jret j = existsb is_nextret pre /\ jprev j = last_ctl pre None.
+
+Lemma last_ctl_snoc tr : forall acc e, last_ctl (tr ++ [e]) acc = if is_sent e then last_ctl tr acc else Some e.
 Proof.
-  destruct e as [i st c|i|i|i|i]; cbn [jstep]; intros E.
-  - destruct (_ && _); [|discriminate]. inversion E; reflexivity.
-  - destruct (top_is _ _); [|discriminate]. inversion E; reflexivity.
-  - destruct (top_is _ _); [|discriminate]. inversion E; reflexivity.
-  - destruct (top_is _ _); [|discriminate]. inversion E; reflexivity.
-  - destruct (top_is _ _); [|discriminate]. inversion E; reflexivity.
+  induction tr as [|x tr IH]; intros acc e; cbn.
+  - destruct e; reflexivity.
+  - destruct x; apply IH.
+Qed.
+
+Lemma jstep_mem pre j e j' : mem_inv pre j -> jstep hs action j e = Some j' -> mem_inv (pre ++ [e]) j'.
+Proof.
+  intros (A & B & C) E. unfold mem_inv. rewrite !existsb_app, last_ctl_snoc. cbn [existsb].
+  destruct e as [i st c|i|i|i|i|].
+  - apply jstep_enter in E as (_ & _ & _ & _ & _ & _ & ->). cbn. rewrite !orb_false_r. auto.
+  - cbn [jstep] in E. destruct (top_is _ _); [|discriminate]. inversion E; subst. cbn. rewrite !orb_false_r. auto.
+  - cbn [jstep] in E. destruct (top_is _ _); [|discriminate]. inversion E; subst. cbn. rewrite !orb_false_r. auto.
+  - cbn [jstep] in E. destruct (top_is _ _); [|discriminate]. inversion E; subst. cbn. rewrite !orb_false_r. auto.
+  - cbn [jstep] in E. destruct (top_is _ _); [|discriminate]. inversion E; subst. cbn. rewrite orb_false_r, orb_true_r. auto.
+  - cbn [jstep] in E. destruct (jw j) eqn:W; [discriminate|]. inversion E; subst. cbn. rewrite orb_true_r, orb_false_r. auto.
+Qed.
+
+Lemma jrun_mem tr : forall pre j j', mem_inv pre j -> jrun hs action j tr = Some j' -> mem_inv (pre ++ tr) j'.
+Proof.
+  induction tr as [|e tr IH]; intros pre j j' I E; cbn in E.
+  - inversion E; subst. rewrite app_nil_r. exact I.
+  - destruct (jstep hs action j e) as [j1|] eqn:E1; [|discriminate].
+    replace (pre ++ e :: tr) with ((pre ++ [e]) ++ tr) by (rewrite <- app_assoc; reflexivity).
+    eapply IH; [|exact E]. eapply jstep_mem; eauto.
 Qed.
 
 Lemma jrun_app' j a b :
@@ -586,39 +748,95 @@ Proof.
   destruct (jstep hs action j e); [apply IH | reflexivity].
 Qed.
 
-(* the chain advances on its own (a handler starts right after another one finished) only while
-   nothing has been written and the request is not cancelled *)
-Theorem accepted_auto_advance tr pre e i st c post :
-  chain_spec_ok hs action tr = true -> tr = pre ++ e :: Enter i st c :: post ->
-  (match e with Exit _ | Unwind _ => st = 0%Z /\ c = false
-              | NextCall _ => c = false
-              | _ => False end).
+(* every start of a handler in an accepted trace, with what came before it *)
+Lemma accepted_enter tr pre i st c post :
+  chain_spec_ok hs action tr = true -> tr = pre ++ Enter i st c :: post ->
+  may_start (last_ctl pre None) st c = true /\
+  Z.eqb st 0 = negb (existsb is_sent pre) /\
+  (existsb is_nextret pre = true -> existsb is_sent pre = true).
 Proof.
   intros H ->. destruct (spec_ok_run _ H) as (j & E).
-  rewrite jrun_app' in E. destruct (jrun hs action j0 pre) as [j1|]; [|discriminate].
-  cbn [jrun] in E. destruct (jstep hs action j1 e) as [j2|] eqn:E2; [|discriminate].
-  apply jstep_prev in E2.
-  destruct (jstep hs action j2 (Enter i st c)) as [j3|] eqn:E3; [|discriminate].
-  cbn [jstep] in E3. destruct (_ && _) eqn:Cd; [|discriminate].
-  apply andb_prop in Cd as [_ M]. rewrite E2 in M. unfold may_start in M.
-  destruct e; try discriminate.
+  rewrite jrun_app' in E. destruct (jrun hs action j0 pre) as [j1|] eqn:E1; [|discriminate].
+  cbn [jrun] in E. destruct (jstep hs action j1 (Enter i st c)) as [j2|] eqn:E2; [|discriminate].
+  apply jstep_enter in E2 as (_ & _ & _ & M & T & R & _).
+  assert (I0 : mem_inv [] j0) by (repeat split).
+  destruct (jrun_mem pre [] j0 j1 I0 E1) as (A & B & C). cbn [app] in *.
+  rewrite <- C, <- A, <- B. auto.
+Qed.
+
+(* the chain advances on its own (a handler starts right after another one finished) only while
+   nothing has been written and the request is not cancelled; any other start follows a Next() call *)
+Theorem accepted_auto_advance tr pre i st c post :
+  chain_spec_ok hs action tr = true -> tr = pre ++ Enter i st c :: post ->
+  match last_ctl pre None with
+  | Some (Exit _) | Some (Unwind _) => st = 0%Z /\ c = false
+  | Some (NextCall _) | None => c = false
+  | _ => False
+  end.
+Proof.
+  intros H E. destruct (accepted_enter tr pre i st c post H E) as (M & _ & _).
+  unfold may_start in M. destruct (last_ctl pre None) as [[ | | | | | ]|]; try discriminate.
   - apply andb_prop in M as [M1 M2]. apply Z.eqb_eq in M1. destruct c; [discriminate | auto].
   - apply andb_prop in M as [M1 M2]. apply Z.eqb_eq in M1. destruct c; [discriminate | auto].
   - destruct c; [discriminate | reflexivity].
+  - destruct c; [discriminate | reflexivity].
+Qed.
+
+(* the status a handler sees on entry is truthful: 0 iff no status line has reached the client *)
+Theorem accepted_truthful_status tr pre i st c post :
+  chain_spec_ok hs action tr = true -> tr = pre ++ Enter i st c :: post ->
+  (st = 0%Z <-> existsb is_sent pre = false).
+Proof.
+  intros H E. destruct (accepted_enter tr pre i st c post H E) as (_ & T & _).
+  destruct (existsb is_sent pre); cbn [negb] in T; split; intros X.
+  - subst. discriminate.
+  - discriminate.
+  - reflexivity.
+  - apply Z.eqb_eq. exact T.
+Qed.
+
+(* once a Next() call has returned - the remainder of the chain ran inside it as far as it got - a
+   handler can only start if the response has been written *)
+Theorem accepted_remainder_inside_next tr pre i st c post :
+  chain_spec_ok hs action tr = true -> tr = pre ++ Enter i st c :: post ->
+  existsb is_nextret pre = true -> st <> 0%Z.
+Proof.
+  intros H E R. destruct (accepted_enter tr pre i st c post H E) as (_ & T & N).
+  rewrite (N R) in T. cbn in T. apply Z.eqb_neq. exact T.
 Qed.
 
 (* no handler ever starts in a cancelled request *)
 Theorem accepted_never_cancelled tr i st c :
   chain_spec_ok hs action tr = true -> In (Enter i st c) tr -> c = false.
 Proof.
-  intros H Hin. destruct (spec_ok_run _ H) as (j & E).
-  apply in_split in Hin as (pre & post & ->).
+  intros H Hin. apply in_split in Hin as (pre & post & E).
+  destruct (accepted_enter tr pre i st c post H E) as (M & _ & _).
+  unfold may_start in M. destruct (last_ctl pre None) as [[ | | | | | ]|]; try discriminate;
+    destruct c; try reflexivity; try discriminate; rewrite ?andb_false_r in M; discriminate.
+Qed.
+
+(* at most one status line *)
+Lemma jrun_sent_once tr : forall j j', jrun hs action j tr = Some j' -> jw j = true -> existsb is_sent tr = false.
+Proof.
+  induction tr as [|e tr IH]; intros j j' E W; [reflexivity|]. cbn in E.
+  destruct (jstep hs action j e) as [j1|] eqn:E1; [|discriminate].
+  destruct e as [i st c|i|i|i|i|]; cbn [existsb is_sent orb].
+  - apply jstep_enter in E1 as (_ & _ & _ & _ & _ & _ & ->). eapply IH; [exact E | exact W].
+  - cbn [jstep] in E1. destruct (top_is _ _); [|discriminate]. inversion E1; subst. eapply IH; [exact E | exact W].
+  - cbn [jstep] in E1. destruct (top_is _ _); [|discriminate]. inversion E1; subst. eapply IH; [exact E | exact W].
+  - cbn [jstep] in E1. destruct (top_is _ _); [|discriminate]. inversion E1; subst. eapply IH; [exact E | exact W].
+  - cbn [jstep] in E1. destruct (top_is _ _); [|discriminate]. inversion E1; subst. eapply IH; [exact E | exact W].
+  - cbn [jstep] in E1. rewrite W in E1. discriminate.
+Qed.
+
+Theorem accepted_one_status tr pre post :
+  chain_spec_ok hs action tr = true -> tr = pre ++ Sent :: post -> existsb is_sent post = false.
+Proof.
+  intros H ->. destruct (spec_ok_run _ H) as (j & E).
   rewrite jrun_app' in E. destruct (jrun hs action j0 pre) as [j1|]; [|discriminate].
-  cbn [jrun] in E. destruct (jstep hs action j1 (Enter i st c)) as [j2|] eqn:E2; [|discriminate].
-  cbn [jstep] in E2. destruct (_ && _) eqn:Cd; [|discriminate].
-  apply andb_prop in Cd as [_ M]. unfold may_start in M.
-  destruct (jprev j1) as [[ | | | | ]|]; try discriminate; destruct c; try reflexivity; try discriminate;
-    rewrite ?andb_false_r in M; discriminate.
+  cbn [jrun] in E. destruct (jstep hs action j1 Sent) as [j2|] eqn:E2; [|discriminate].
+  cbn [jstep] in E2. destruct (jw j1); [discriminate|]. inversion E2; subst.
+  eapply jrun_sent_once; [exact E | reflexivity].
 Qed.
 End Meaning.
 
@@ -627,7 +845,7 @@ Lemma recovery_response head dev v s :
   let s' := w_body head (CPanicPage v dev) (w_header 500 s) in
   status s' = (if Z.eqb (status s) 0 then 500%Z else status s) /\
   (head = false -> body s' = body s ++ [CPanicPage v dev]) /\
-  trace s' = trace s /\ idx s' = idx s.
+  idx s' = idx s.
 Proof.
   cbn. unfold w_body, w_header. destruct (Z.eqb (status s) 0) eqn:E; cbn; rewrite ?E; cbn.
   - destruct head; cbn; repeat split; auto; intros; discriminate.
@@ -635,5 +853,14 @@ Proof.
 Qed.
 
 (* return values that render to nothing leave the response untouched, so the chain goes on *)
-Lemma empty_return_continues head r s : render r = [] -> w_ops head (render r) s = s.
+Lemma empty_return_continues head ops s : ops = [] -> w_ops head ops s = s.
 Proof. intros ->. reflexivity. Qed.
+
+(* a ReturnHandler mapped in the request scope is the one used, then the application's, then the table *)
+Lemma rendering_nearest apprh s acts v r :
+  rendering apprh s (HNormal acts (v :: r)) =
+  match rh s with Some k => custom_rh k | None => match apprh with Some k => custom_rh k | None => render (v :: r) end end.
+Proof. reflexivity. Qed.
+
+Lemma rendering_nothing_returned apprh s acts : rendering apprh s (HNormal acts []) = [].
+Proof. reflexivity. Qed.
